@@ -139,8 +139,12 @@ func genC09(t *rapid.T, protos []vt.NamedProto) c09Case {
 		}
 	}
 	for lvl := 0; lvl <= c.Depth; lvl++ {
-		for i, n := 0, rapid.IntRange(0, 1).Draw(t, "nhandler"); i < n; i++ {
+		// the CALL route and the PUSH route of a level are registered with plugins of their own
+		for i, n := 0, rapid.IntRange(0, 2).Draw(t, "nhandler"); i < n; i++ {
 			c.SrvPlugs = append(c.SrvPlugs, mk(fmt.Sprintf("handler%d", lvl)))
+		}
+		for i, n := 0, rapid.IntRange(0, 2).Draw(t, "npushhandler"); i < n; i++ {
+			c.SrvPlugs = append(c.SrvPlugs, mk(fmt.Sprintf("phandler%d", lvl)))
 		}
 	}
 	c.Unknown = rapid.IntRange(0, 2).Draw(t, "unknown") == 0
@@ -199,7 +203,11 @@ func (p plugSpec) has(stage string) bool {
 // global-left, groups outer->inner, handler-level, global-right. Late "left"
 // attachments go in front of the existing left plugins (AppendLeft prepends),
 // late "right" ones at the very end.
-func (c c09Case) chain(level int, global bool) []plugSpec {
+func (c c09Case) chain(level int, global bool, kind ...string) []plugSpec {
+	hprefix := "handler"
+	if len(kind) > 0 && kind[0] == "push" && level >= 0 {
+		hprefix = "phandler"
+	}
 	var lateLeft, left, middle, right, lateRight []plugSpec
 	for _, p := range c.SrvPlugs {
 		switch {
@@ -222,7 +230,7 @@ func (c c09Case) chain(level int, global bool) []plugSpec {
 			}
 		}
 		for _, p := range c.SrvPlugs {
-			if p.Where == fmt.Sprintf("handler%d", level) {
+			if p.Where == fmt.Sprintf("%s%d", hprefix, level) {
 				middle = append(middle, p)
 			}
 		}
@@ -269,7 +277,7 @@ type c09Expect struct {
 func (c c09Case) expect(m c09Msg) c09Expect {
 	e := c09Expect{written: true}
 	srvGlobal := c.chain(0, true)
-	srvHandler := c.chain(m.Level, false)
+	srvHandler := c.chain(m.Level, false, m.Kind)
 	cliChain := c.CliPlugs
 	if m.Kind == "push" {
 		if runStage(&e.cli, cliChain, "PreWritePush") {
@@ -393,15 +401,18 @@ func runC09(c c09Case, protos []vt.NamedProto) []string {
 	pushRoutes := make([]string, c.Depth+1)
 	var group *erpc.SubRouter
 	for lvl := 0; lvl <= c.Depth; lvl++ {
-		var hp []erpc.Plugin
+		var hp, php []erpc.Plugin
 		for _, p := range c.SrvPlugs {
 			if p.Where == fmt.Sprintf("handler%d", lvl) {
 				hp = append(hp, mkRec(p, srvLog))
 			}
+			if p.Where == fmt.Sprintf("phandler%d", lvl) {
+				php = append(php, mkRec(p, srvLog))
+			}
 		}
 		if lvl == 0 {
 			callRoutes[0] = srv.RouteCallFunc(C09Call, hp...)
-			pushRoutes[0] = srv.RoutePushFunc(C09Push, hp...)
+			pushRoutes[0] = srv.RoutePushFunc(C09Push, php...)
 			continue
 		}
 		var gp []erpc.Plugin
@@ -416,7 +427,7 @@ func runC09(c c09Case, protos []vt.NamedProto) []string {
 			group = group.SubRoute(fmt.Sprintf("g%d", lvl), gp...)
 		}
 		callRoutes[lvl] = group.RouteCallFunc(C09Call, hp...)
-		pushRoutes[lvl] = group.RoutePushFunc(C09Push, hp...)
+		pushRoutes[lvl] = group.RoutePushFunc(C09Push, php...)
 	}
 	if c.Unknown {
 		var up []erpc.Plugin
@@ -542,7 +553,7 @@ func (c c09Case) nontrivial() bool {
 	return veto || late && c.Depth >= 1
 }
 
-const ruleC09 = "generated plugin arrangement on the receiving peer (0-4 global-left, 0-4 global-right, a chain of 0-3 nested router groups with 0-2 plugins each, 0-1 handler-level plugin per level, optionally unknown-call / unknown-push handlers with 0-2 plugins of their own, 0-2 global plugins attached AFTER all routes exist via AppendLeft/AppendRight, and in a third of the cases some global plugins removed again with PluginContainer().Remove before the traffic) and 0-2 global plugins on the calling peer; each plugin records a generated subset of 15 stages and at most one plugin vetoes at one stage; 1-6 calls/pushes to handlers at generated nesting levels or to unregistered routes, handler returns or fails; reference model computes the exact per-message hook trace on both peers, the caller-visible status code, whether bytes may be written and whether the handler runs; non-trivial = >=2 plugins on one stage, a veto, or a late attachment with a nested group; distinct by arrangement"
+const ruleC09 = "generated plugin arrangement on the receiving peer (0-4 global-left, 0-4 global-right, a chain of 0-3 nested router groups with 0-2 plugins each, 0-2 handler-level plugins per CALL route and 0-2 of their own per PUSH route at every level, optionally unknown-call / unknown-push handlers with 0-2 plugins of their own, 0-2 global plugins attached AFTER all routes exist via AppendLeft/AppendRight, and in a third of the cases some global plugins removed again with PluginContainer().Remove before the traffic) and 0-2 global plugins on the calling peer; each plugin records a generated subset of 15 stages and at most one plugin vetoes at one stage; 1-6 calls/pushes to handlers at generated nesting levels or to unregistered routes, handler returns or fails; reference model computes the exact per-message hook trace on both peers, the caller-visible status code, whether bytes may be written and whether the handler runs; non-trivial = >=2 plugins on one stage, a veto, or a late attachment with a nested group; distinct by arrangement"
 
 func TestC09PluginOrder(t *testing.T) {
 	rec := vt.NewRec(t, "C09", "order", ruleC09)
